@@ -18,23 +18,29 @@ def main():
     tier = os.environ.get('SEED_TIER', 'quick')
     patch = os.path.join(d, 'patch.diff'); demo = os.path.join(d, 'demo.cpp')
     res = dict(dir=d, properties=props, steps=[])
+    phase = os.environ.get('SEED_PHASE', 'all')     # 'verify' (scratch worktree only), 'check' (/repo only; needs an earlier verify), 'all'
+    sj = os.path.join(d, 'seedtest.json')
+    if phase == 'check':
+        res = json.load(open(sj)); res['properties'] = props
+        assert res.get('applies') and res.get('suite_passes_with_patch') and res.get('demo_ok'), 'verify phase did not confirm this change'
+        return check_phase(res, d, props, tier, patch)
     rc, out = sh('git -C %s status --porcelain --untracked-files=no' % REPO)
-    if out.strip(): print('REFUSING: /repo has local modifications:\n' + out); return 2
-    rc, out = sh('git -C %s apply --check %s' % (REPO, patch))
-    res['applies'] = rc == 0
-    if rc != 0: print('patch does not apply to /repo HEAD:\n' + out); print(json.dumps(res)); return 2
+    if out.strip() and phase != 'verify': print('REFUSING: /repo has local modifications:\n' + out); return 2
     wt = tempfile.mkdtemp(prefix='seed-wt-', dir='/tmp')
     try:
         sh('git -C %s worktree add -f %s HEAD' % (REPO, wt))
+        rc, out = sh('git -C %s apply --check %s' % (wt, patch))
+        res['applies'] = rc == 0
+        if rc != 0: print('patch does not apply to /repo HEAD:\n' + out); print(json.dumps(res)); return 2
         # demo without the patch
         rc0c, o0c = sh('g++ -std=c++11 -I%s/include %s -o %s/demo_orig' % (wt, demo, wt))
         rc0, o0 = sh('%s/demo_orig' % wt, timeout=120) if rc0c == 0 else (999, o0c)
         sh('git -C %s apply %s' % (wt, patch))
         # header consistency: is the shipped header still the amalgamation of development/ ?
-        sh('cp include/ffsm2/machine.hpp /tmp/seed-hdr-before.hpp && cd tools && python3 join.py', cwd=wt)
-        rcj, oj = sh('cmp include/ffsm2/machine.hpp /tmp/seed-hdr-before.hpp', cwd=wt)
+        sh('cp include/ffsm2/machine.hpp %s.hdr-before.hpp && cd tools && python3 join.py' % wt, cwd=wt)
+        rcj, oj = sh('cmp include/ffsm2/machine.hpp %s.hdr-before.hpp' % wt, cwd=wt)
         res['patch_keeps_header_in_sync'] = rcj == 0
-        sh('cp /tmp/seed-hdr-before.hpp include/ffsm2/machine.hpp; rm -f /tmp/seed-hdr-before.hpp', cwd=wt)
+        sh('cp %s.hdr-before.hpp include/ffsm2/machine.hpp; rm -f %s.hdr-before.hpp' % (wt, wt), cwd=wt)
         rcb, ob = sh('cmake -S . -B _build -G Ninja >/dev/null && cmake --build _build 2>&1 | tail -4', cwd=wt, timeout=3600)
         res['suite_passes_with_patch'] = 'Status: SUCCESS' in ob and 'test cases:   21 |   21 passed' in ob
         rc1c, o1c = sh('g++ -std=c++11 -I%s/include %s -o %s/demo_patched' % (wt, demo, wt))
@@ -45,15 +51,23 @@ def main():
     finally:
         sh('git -C %s worktree remove --force %s' % (REPO, wt)); shutil.rmtree(wt, ignore_errors=True)
     print('applies=%s suite_passes=%s demo(orig rc=%s, patched rc=%s) header_in_sync=%s' % (res['applies'], res['suite_passes_with_patch'], rc0, rc1, res['patch_keeps_header_in_sync']), flush=True)
+    if phase == 'verify':
+        json.dump(res, open(sj, 'w'), indent=1); return 0
+    return check_phase(res, d, props, tier, patch)
+
+def check_phase(res, d, props, tier, patch):
     # run the checks against /repo with the patch applied
+    rc, out = sh('git -C %s status --porcelain --untracked-files=no' % REPO)
+    if out.strip(): print('REFUSING: /repo has local modifications:\n' + out); return 2
     res['checks'] = {}
     sh('git -C %s apply %s' % (REPO, patch))
     try:
         for p in props:
             t0 = time.time()
-            rc, out = sh('./check %s --tier %s' % (p, tier), cwd=HERE, timeout=4 * 3600)
+            only = os.environ.get('SEED_ONLY', '')
+            rc, out = sh('./check %s --tier %s%s' % (p, tier, (' --only ' + only) if only else ''), cwd=HERE, timeout=4 * 3600)
             lines = [l for l in out.split('\n') if l.startswith('VIOLATION') or l.startswith('  violated') or l.startswith('INCONCLUSIVE') or l.startswith('check ') or l.startswith('KNOWN')]
-            res['checks'][p] = dict(rc=rc, wall_s=round(time.time() - t0), lines=[l[:300] for l in lines[:14]])
+            res['checks'][p] = dict(rc=rc, wall_s=round(time.time() - t0), only=os.environ.get('SEED_ONLY', ''), lines=[l[:300] for l in lines[:14]])
             print('%s rc=%d %ds' % (p, rc, time.time() - t0)); print('\n'.join('   ' + l[:260] for l in lines[:10]), flush=True)
     finally:
         sh('git -C %s checkout -- .' % REPO)
